@@ -226,11 +226,7 @@ func runC09(ctx *Ctx, c *c09Case) {
 	}
 	if !continues {
 		// regulation of this fan has stopped: it must have been handed back
-		refused := false
-		if w := rig.pwmWrites(); len(w) > 0 {
-			last := w[len(w)-1]
-			refused = last.Val == 255 && (last.Err != "" || last.Action == "ignore")
-		}
+		refused := rig.lastPwmWriteRefused()
 		if c.Spec.FanKind == "cmd" {
 			// a cmd fan whose set command keeps failing cannot be restored
 			for _, f := range c.Faults {
